@@ -10,7 +10,7 @@ STUBS = ["the parent inventories hold one entry for the file (or none); entries 
          "the last-changed revision included); the per-file graph answers heads() from a symbolic ancestry relation between "
          "the parents' versions; _add_file_to_weave records its parents and raises ExistingContent when the content hash "
          "equals the given one, as the real one does",
-         "the working tree answers content hash / symlink-free kinds (file, directory)"]
+         "the working tree answers content hash / link target for the kinds file, directory, symlink"]
 ASSUMPTIONS = ["names, directories, content hashes are SYMBOLIC comparators (integers: the code only compares them), revision ids "
                "are symbolic ids; two parent entries with the same last-changed revision are the same entry; iter_changes "
                "against the basis reports the file iff the working tree differs from the basis entry in content, name, "
@@ -20,7 +20,7 @@ ASSUMPTIONS = ["names, directories, content hashes are SYMBOLIC comparators (int
                "name, directory, executable bit and content, the new inventory names that version as last-changed and "
                "stores no new text; otherwise the last-changed revision is the new revision and a text with exactly those "
                "parents is stored; a file absent from the tree gets a deletion row"]
-OUTSIDE = ["symlinks and tree references, more than two parents, ghosts among the parents, the root entry's housekeeping",
+OUTSIDE = ["tree references, more than two parents, ghosts among the parents, the root entry's housekeeping",
            "the compiled inventory / delta classes, the real per-file graph (vcsgraph), real texts and the repository "
            "consistency check (brz check) over real histories"]
 
@@ -48,9 +48,10 @@ class _Id(bytes):
 
 
 class Entry:
-    def __init__(self, file_id, name, parent_id, revision=None, kind="file", executable=False, text_size=None, text_sha1=None):
+    def __init__(self, file_id, name, parent_id, revision=None, kind="file", executable=False, text_size=None, text_sha1=None,
+                 symlink_target=None):
         self.file_id, self.name, self.parent_id, self.revision, self.kind = file_id, name, parent_id, revision, kind
-        self.executable, self.text_size, self.text_sha1 = executable, text_size, text_sha1
+        self.executable, self.text_size, self.text_sha1, self.symlink_target = executable, text_size, text_sha1, symlink_target
 
 
 def ob_record(cx):
@@ -66,10 +67,11 @@ def ob_record(cx):
         """the file as one parent inventory has it (or None)"""
         if not cx.choose(who + "_present", 0, 1):
             return None
-        kind = cx.pick(who + "_kind", ["file", "directory"])
+        kind = cx.pick(who + "_kind", ["file", "directory", "symlink"])
         return Entry(FID, cx.int(who + "_name", 0, 2), cx.int(who + "_dir", 0, 2), _Id(cx, cx.int(who + "_rev", 1, 3), who),
                      kind, bool(cx.choose(who + "_exec", 0, 1)) if kind == "file" else False,
-                     7 if kind == "file" else None, cx.int(who + "_sha", 0, 2) if kind == "file" else None)
+                     7 if kind == "file" else None, cx.int(who + "_sha", 0, 2) if kind == "file" else None,
+                     cx.int(who + "_target", 0, 2) if kind == "symlink" else None)
 
     def same(a, b, with_rev=False):
         if a is None or b is None:
@@ -77,6 +79,8 @@ def ob_record(cx):
         if a.kind != b.kind or not T(a.name == b.name) or not T(a.parent_id == b.parent_id):
             return False
         if a.kind == "file" and (a.executable != b.executable or not T(a.text_sha1 == b.text_sha1)):
+            return False
+        if a.kind == "symlink" and not T(a.symlink_target == b.symlink_target):
             return False
         return (a.revision == b.revision) if with_rev else True
     B = version("basis")
@@ -127,6 +131,8 @@ def ob_record(cx):
     V.InventoryFile = lambda file_id, name, parent_id, revision=None, executable=False, text_size=None, text_sha1=None: Entry(
         file_id, name, parent_id, revision, "file", executable, text_size, text_sha1)
     V.InventoryDirectory = lambda file_id, name, parent_id, revision=None: Entry(file_id, name, parent_id, revision, "directory")
+    V.InventoryLink = lambda file_id, name, parent_id, revision=None, symlink_target=None: Entry(
+        file_id, name, parent_id, revision, "symlink", symlink_target=symlink_target)
 
     def heads(revs):
         revs = list(revs)
@@ -150,6 +156,10 @@ def ob_record(cx):
         @staticmethod
         def get_file_with_stat(path):
             return File(), None
+
+        @staticmethod
+        def get_symlink_target(path):
+            return W.symlink_target
 
     def add_to_weave(file_id, fileobj, parents, nostore_sha, size):
         sha = W.text_sha1 if W.kind == "file" else None
@@ -220,6 +230,8 @@ def ob_record(cx):
             cx.cover("per_file_merge")
     if W.kind == "file":
         cx.require(T(ent.text_sha1 == W.text_sha1) and ent.executable == W.executable, "recorded content / executable bit differ from the tree's")
+    if W.kind == "symlink":
+        cx.require(T(ent.symlink_target == W.symlink_target), "recorded symlink target differs from the tree's")
     cx.observe("revision", "carried" if carried else "new")
 
 
@@ -228,6 +240,6 @@ def obligations(tier):
     return [Ob("record_one_file", ob_record, [VF], {}, 900 if q else 3600, 2 if q else 1,
                ["carried_over", "new_version", "per_file_merge", "removed", "untouched"],
                bounds="one file; one or two parent revisions; in each parent inventory and in the tree the file is absent or a "
-                      "file / directory with symbolic name, directory, content hash, executable bit; the parents' last-changed "
+                      "file / directory / symlink with symbolic name, directory, content hash, executable bit, link target; the parents' last-changed "
                       "revisions are symbolic ids (equal or not), their per-file ancestry is basis-older / other-older / "
                       "unrelated")]
